@@ -1,14 +1,32 @@
-(* E2 — a calculus of sender expressions and its executable operational semantics.
-   Executable definitions only (extracted to OCaml and run against the real library by the K2
-   tie); proofs are in Calc/*Proofs.v.
+(* E2, second generation — Calc/CalcDefs.v (frozen, module Calc) extended; module Calc2.
+   Executable definitions only (extracted to OCaml and run against the real library by the K2v2 tie:
+   ocaml/handlers/h_calc2.ml, harness/k2v2.hpp, tools/k2v2.py); no proofs yet.  The structure of CalcDefs is
+   kept (same three entry points start / stop / leafev, same node state, same helper names with the same
+   meaning) so that the Calc proof developments can be ported; everything new is marked [Calc2].
+
+   Extensions
+   1. Lifetimes (C02): completion and destruction of an operation state are distinct.  A completed leaf stays
+      [OLeaf true _], a completed node stays [OCompl a b] until the parent destroys it; [OFin] = no operation
+      state.  [dtor] is the destructor cascade (events TLeafDtor / TSchedDtor in the real member order); the
+      sequential kinds emit it where the headers destroy the finished child ([eager_dtor], [seq_pass],
+      [seq_final], [un_eager], [un_done]); [run_end] destroys the completed root operation (XRootDtor).
+   2. Execution contexts (C11): [cx], the context the current external event is delivered on, is a new last
+      argument of start / stop / leafev; leaves and the root record it; [Sched id c] = schedule() on the
+      scheduler of context c (FIFO per context at run level: [r_queue], EvRun c); [e_sched] / UWithSched =
+      get_scheduler; via / on / wsa_via are Gallina definitions over the existing constructors.
+   3. More algorithms: ULetSS (let_value_with_stop_source) with LeafR (a leaf whose callable requests stop on a
+      chosen enclosing source: TReqStop, OHeld, [fired]); StopIf; just_from / defer (definitions, [lift]);
+      URepeat (repeat_effect_until: [rep_loop], [rep_done], n_iter); BRetry (retry_when: [retry_err],
+      [retry_a_done], [retry_b_done]); UIntoVar; BWhenAny (when_any as a primitive derived from the header's
+      composition: [conc_reap], cell).
 
    A sender expression is a tree over the library's algorithms; the operation state of a connected
    expression is a tree [ost] of the same shape.  Three entry points, all structurally recursive
    on the expression, mirror what can happen to a real operation state:
-     start  e env        - start() of a freshly connected operation,
-     leafev e st id o    - an asynchronous leaf, started earlier, is completed from outside,
-     stop   e st         - stop is requested on the token of the receiver this operation is
-                           connected to.
+     start  e env cx        - start() of a freshly connected operation,
+     leafev e st id o cx    - an asynchronous leaf, started earlier, is completed from outside,
+     stop   e st cx         - stop is requested on the token of the receiver this operation is
+                              connected to.
    Each returns the new state, the observable events in order, and [Some o] when the operation
    completed its receiver with outcome [o] during the call (completion may happen inside start,
    inside an external leaf completion, or inside a stop request when a stop-reactive leaf
@@ -16,8 +34,10 @@
 
    C++ mirrored (include/unifex/): just.hpp just_error.hpp just_done.hpp then.hpp upon_error.hpp
    upon_done.hpp let_value.hpp let_error.hpp let_done.hpp sequence.hpp finally.hpp when_all.hpp
-   stop_when.hpp with_query_value.hpp unstoppable.hpp; harness leaves stand for arbitrary
-   asynchronous senders. *)
+   stop_when.hpp with_query_value.hpp unstoppable.hpp materialize.hpp done_as_optional.hpp via.hpp typed_via.hpp
+   on.hpp with_scheduler_affinity.hpp let_value_with_stop_source.hpp stop_if_requested.hpp just_from.hpp
+   defer.hpp repeat_effect_until.hpp retry_when.hpp into_variant.hpp when_any.hpp; harness leaves stand for
+   arbitrary asynchronous senders, harness schedulers for arbitrary execution contexts. *)
 From Coq Require Import ZArith List Bool.
 Import ListNotations.
 Local Open Scope Z_scope.
